@@ -4,4 +4,8 @@ MCCounts == {0, 1, 3}
 MCCountsT == {0, 1, 2, 5, 16, 64}
 MCStrLens == {0, 1, 2, 3, 25, 26, 27, 30, 63, 64, 126}
 MCStrLensT == 0 .. 126
+MCTeams == {0, 2}
+MCTeamsT == {0, 2, 8}
+MCParts == 1 .. 3
+MCPartsT == {1, 2, 3, 5, 7}
 =============================================================================
